@@ -9,6 +9,7 @@ package quic_test
 import (
 	"context"
 	"fmt"
+	"net"
 	"testing"
 	"testing/synctest"
 	"time"
@@ -27,6 +28,7 @@ type c16Case struct {
 	Close     string `json:"close"`   // client server idle client-transport server-transport
 	BulkMB    int    `json:"bulk_mb"` // > 0: enough packets to make the endpoints rotate connection IDs
 	Dials     int    `json:"dials"`
+	Retry     bool   `json:"retry,omitempty"` // the server validates addresses with a Retry: the connection is created under the Retry's connection ID
 }
 
 func TestVerifC16Routing(t *testing.T) {
@@ -41,6 +43,9 @@ func TestVerifC16Routing(t *testing.T) {
 				}
 				for _, how := range []string{"client", "server", "idle", "client-transport", "server-transport"} {
 					cases = append(cases, c16Case{Name: fmt.Sprintf("%s/scid%d/ccid%d/%s", cl, scid, cc, how), Client: cl, ServerCID: scid, ClientCID: cc, Close: how, Dials: 2})
+					if scid == 8 {
+						cases = append(cases, c16Case{Name: fmt.Sprintf("%s/scid%d/ccid%d/%s/retry", cl, scid, cc, how), Client: cl, ServerCID: scid, ClientCID: cc, Close: how, Dials: 2, Retry: true})
+					}
 				}
 			}
 		}
@@ -80,6 +85,9 @@ func runC16Routing(l *evlog.Log, c *evlog.Case, cs *c16Case) {
 	opt := quicworld.Options{RTT: 10 * time.Millisecond, ServerCIDLen: cs.ServerCID, ClientCIDLen: cs.ClientCID,
 		ClientConf: &quic.Config{MaxIdleTimeout: idle, InitialStreamReceiveWindow: 1 << 20, InitialConnectionReceiveWindow: 2 << 20},
 		ServerConf: &quic.Config{MaxIdleTimeout: idle, InitialStreamReceiveWindow: 1 << 20, InitialConnectionReceiveWindow: 2 << 20}}
+	if cs.Retry {
+		opt.VerifySourceAddress = func(net.Addr) bool { return true }
+	}
 	if cs.Client != "plain" {
 		spec, err := quic.QUICID2Spec(quicworld.QUICIDs[cs.Client])
 		if err != nil {
